@@ -146,3 +146,31 @@ Proof.
     apply legal_tok; [exact Lb|discriminate].
 Qed.
 End D.
+
+(* ------------------------------------------------------------------ run level *)
+Definition no_stale_tmp (c : cfgT) (f : fsT) (cmd : command) : bool :=
+  match cmd with
+  | CRebase a _ => negb (exists_ f (pathjoin [layer_path c a; D_LayerconfigFile] ++ tmp_suffix))
+  | _ => true
+  end.
+
+Theorem rebase_exact_run e c um a b0 s :
+  cfg_ok c = true -> fs_ok c (w_fs (s_w s)) = true -> LC.nodup_paths (map fst (w_fs (s_w s))) = true ->
+  no_stale_tmp c (w_fs (s_w s)) (CRebase a b0) = true -> e_pretend e = false ->
+  match run_command e c um (CRebase a b0) s with
+  | (Ret _, s') => C02.rebase_exact c (w_fs (s_w s)) (w_fs (s_w s')) a b0 = true
+  | _ => True
+  end.
+Proof.
+  intros Hcfg Hfs Hnd Hst Hnp.
+  destruct (cfg_ok_spec c Hcfg) as (Lc & bsr & wsr & usr & Ec & bpr & gpr & PL & EL & _).
+  destruct (fs_ok_spec c Lc _ PL EL Hfs) as (Hc0 & Hn0 & Hcl0).
+  cbn [run_command].
+  apply (with_layers_post c um (fun ld => rebase_layer e c ld a b0) s
+           (fun w => C02.rebase_exact c (w_fs (s_w s)) (w_fs w) a b0 = true)).
+  intros ld HLD _ HP HCo.
+  eapply post_conseq; [apply (rebase_exact_post c Lc PL EL (w_fs (s_w s)) e ld a b0 Hc0 Hn0 Hcl0)| |]; cbv beta; auto.
+  - now apply nodup_paths_NoDup.
+  - cbn [no_stale_tmp] in Hst. now apply negb_true_iff in Hst.
+  - intros w ->. reflexivity.
+Qed.
